@@ -192,7 +192,8 @@ VERSIONS = ["2", "1", "3", "", "2.0", " 2", "2 ", "02", "２", 2, 2.0, True, ["2
 DATES = ["2025-06-01", "2031-06-01", "2025-6-1", "+2025-06-01", "2025-+6-01", "2025-13-01", "2025-00-10", "2025-02-31", "2025-12-32",
          "2025-12-00", "soon", "", "2025-06", "2025-06-01-01", "65535-12-31", "65536-01-01", "2025-256-01", "2025-12-256", "２０２５-06-01",
          "2025-06-01 ", " 2025-06-01", "2025/06/01", "0-1-1", "-2025-06-01", "2025--06", "+-1-1", "+", "1-1-+", 20250601, Raw("2025-06-01"), True,
-         "0000-01-01", "99999-01-01", "2025-012-01", "2025-0012-01"]
+         "0000-01-01", "99999-01-01", "2025-012-01", "2025-0012-01", "2024-02-29", "2025-02-29", "1900-02-29", "2000-02-29", "2025-04-31",
+         "2025-06-30", "2025-11-31", "2025-09-31", "2025-1-01", "2025-01-1", "025-01-01", "2025-01-01x", "2O25-01-01"]
 DURATIONS = ["7d", "1w", "12h", "5m", "300s", "0d", "d", "30", "30x", "", "  7d  ", "7D", "2Weeks", "18446744073709551615s",
              "18446744073709551616s", "30500568904943w", "30500568904944w", "213503982334601d", "213503982334602d", "40000000000000w",
              "5124095576030431h", "5124095576030432h", "307445734561825860m", "307445734561825861m", "4wK", "7 d", "７d", "-7d", "+7d",
@@ -633,9 +634,9 @@ def flags_to_coq(f):
 
 # --------------------------------------------------------------------------- harness / model plumbing
 
-BEHAV_KEYS = ["rule_wt", "expires", "revalidate_cli", "validate_builds", "dur_checked", "count_exclude"]
+BEHAV_KEYS = ["rule_wt", "expires", "revalidate_cli", "validate_builds", "dur_checked", "count_exclude", "strict_dates"]
 # repaired defect (known_findings fixed entry, by patch name prefix) -> behaviour switches of the model
-FIX_SWITCHES = {"D18-": ["validate_builds"], "D19-": ["rule_wt", "expires", "revalidate_cli"], "count-exclude-glob": ["count_exclude"]}
+FIX_SWITCHES = {"D18-": ["validate_builds"], "D19-": ["rule_wt", "expires", "revalidate_cli"], "count-exclude-glob": ["count_exclude"], "strict-expires-dates": ["strict_dates"]}
 
 
 def gate_dump(exe):
@@ -710,7 +711,7 @@ def gen_presets_v(items, behav, probes):
     out.append("Definition all_count : N := %d." % len(names))
     out.append("(* behaviour of the working tree: repaired defects per known_findings/C17.json (fixed), D17 probed on the built crate *)")
     out.append("Definition current : behav := {| b_rule_wt := %s; b_expires := %s; b_revalidate_cli := %s; b_validate_builds := %s; "
-               "b_dur_checked := %s; b_count_exclude := %s |}." % tuple(cb(behav[k]) for k in BEHAV_KEYS))
+               "b_dur_checked := %s; b_count_exclude := %s; b_strict_dates := %s |}." % tuple(cb(behav[k]) for k in BEHAV_KEYS))
     return "\n".join(out) + "\n"
 
 
@@ -761,3 +762,51 @@ def write_gen_presets(bins=None, sgcli=None):
     behav = behav_from_known_findings(load_known_findings(), probes)
     write_if_changed(os.path.join(COQ, "Gen", "Gen_Presets.v"), gen_presets_v([(n, w) for n, w in items if w is not None], behav, probes))
     return presets, templates, probes, behav, items
+
+
+# --------------------------------------------------------------------------- long malformed globs (diagnostic rendering)
+
+GLOB_SETTINGS = [
+    ("scanner.exclude", lambda g: {"scanner": {"exclude": [".git/**", g]}}),
+    ("content.exclude", lambda g: {"content": {"exclude": [g]}}),
+    ("content.rules.pattern", lambda g: {"content": {"rules": [{"pattern": g, "max_lines": 10}]}}),
+    ("structure.count_exclude", lambda g: {"structure": {"max_files": 30, "count_exclude": [g]}}),
+    ("structure.deny_patterns", lambda g: {"structure": {"deny_patterns": ["*.bak", g]}}),
+    ("structure.deny_files", lambda g: {"structure": {"deny_files": [g]}}),
+    ("structure.deny_dirs", lambda g: {"structure": {"deny_dirs": [g]}}),
+    ("structure.allow_files", lambda g: {"structure": {"allow_files": [g]}}),
+    ("structure.allow_dirs", lambda g: {"structure": {"allow_dirs": [g]}}),
+    ("structure.rules.scope", lambda g: {"structure": {"rules": [{"scope": g, "max_files": 3}]}}),
+] + [("structure.rules." + k, (lambda k: lambda g: {"structure": {"rules": [{"scope": "src/**", k: [g]}]}})(k))
+     for k in ("allow_patterns", "allow_files", "allow_dirs", "deny_patterns", "deny_files", "deny_dirs")] + [
+    ("structure.rules.siblings.match", lambda g: {"structure": {"rules": [{"scope": "src/**", "siblings": [{"match": g, "require": "{stem}.x"}]}]}}),
+]
+WIDE = {2: "\u00e9", 3: "\u30b5", 4: "\U0001f600"}
+
+
+def long_bad_glob(k, w, variant):
+    """A malformed glob whose UTF-8 byte index k is a continuation byte of a w-byte character."""
+    s = k - 1 - (variant % (w - 1))          # start of the character: s < k < s + w
+    pad = (variant * 7 + k * 3) % 120
+    tail = "[z" if (variant + k) % 2 == 0 else "{a,b"
+    g = "a" * s + WIDE[w] + "b" * pad + tail
+    assert g.encode("utf-8")[k] & 0xC0 == 0x80
+    return g
+
+
+def long_glob_cases(quick):
+    out = []
+    for i, (name, mk) in enumerate(GLOB_SETTINGS):
+        if quick:
+            ks = sorted({60, 50 + (i * 3) % 21, 50 + (i * 3 + 1) % 21, 50 + (i * 3 + 2) % 21})
+            combos = [(k, 2 + (i + k) % 3) for k in ks]
+        else:
+            combos = [(k, w) for k in range(50, 71) for w in (2, 3, 4)]
+        for k, w in combos:
+            g = long_bad_glob(k, w, i + k)
+            out.append({"tag": "long-glob", "toml": render(mk(g)), "argv": [], "muts": ["%s = malformed glob of %d bytes, byte %d inside a %d-byte character"
+                                                                                   % (name, len(g.encode("utf-8")), k, w)], "check_only": True})
+        # controls: shorter than 60 bytes, a character boundary exactly at byte 60, long ASCII
+        for g in ("a" * 30 + WIDE[3] * 3 + "[z", "a" * 57 + WIDE[3] + "b" * 20 + "[z", "a" * 150 + "[z"):
+            out.append({"tag": "long-glob", "toml": render(mk(g)), "argv": [], "muts": ["%s = long malformed glob (control)" % name], "check_only": True})
+    return out
